@@ -178,4 +178,8 @@ def run(tier, seed, replay=None):
         # tie "model pass output == real pass output" on generated and synthetic functions
         from checks import c02_deep
         c02_deep.deep(ck, tier, seed)
+        # the loop pass (invariant code motion, induction analysis, closed form, IV elimination, strength reduction): Gallina
+        # models over the same MIR semantics, theorems per sub-pass, output equality with the real pass
+        from checks import c02_loop
+        c02_loop.loops(ck, tier, seed)
     return ck.finish()
